@@ -246,8 +246,10 @@ def build(files, opts=None, stage="correlate", proj_body="", root=None, keep=Fal
                 aliases = copy.copy(s.alias)
                 aliases.update(s.external)
                 url_path = pathlib.Path(s.project_url)
+                from ford.utils import url_from_path  # (as ford.main does)
+
                 aliases.update(
-                    {"url": str(url_path), "media": str(url_path / "media"), "page": str(url_path / "page")}
+                    {"url": url_from_path(url_path), "media": url_from_path(url_path / "media"), "page": url_from_path(url_path / "page")}
                 )
                 md = MetaMarkdown(
                     s.md_base_dir,
